@@ -13,6 +13,8 @@ import (
 	"os"
 	"os/exec"
 	"path/filepath"
+	"sort"
+	"strconv"
 	"strings"
 	"sync"
 	"time"
@@ -234,8 +236,49 @@ func c20Run(j c20Job) *jobReport {
 				}
 			}
 		}
-		m.S = mWindow // every state before the first loop iteration is taken as a possible start (superset of the start-up guarantee)
+		m.S = mWindow
 		rep.Extra = map[string]int{"H": m.H, "Hneg": m.Hneg, "W": m.W, "T": m.T, "S": m.S}
+		// start-up: how many rotations has a server performed by the time it has started with the clock d slots
+		// past the window offset and all its loops are parked (nothing fired)? Coarse scan, then every value
+		// around each change. Reported as the change points of that step function.
+		startRot := func(d int) (int, bool) {
+			ow, err := newOpsWorld("c20s")
+			if err != nil {
+				rep.fail("harness/setup", err.Error())
+				return 0, false
+			}
+			defer ow.finish(&bfsResult{})
+			ow.apply(fmt.Sprintf("now:%d", d))
+			if err := ow.Restart(); err != nil {
+				rep.fail("start-up-fails", map[string]interface{}{"now_minus_offset": d, "err": err.Error()})
+				ow.Poisoned = true
+				return 0, false
+			}
+			return int(ow.S.VerifSnapshot().ReportsOffset) / mWeek, true
+		}
+		prevD, prevR := 0, -1
+		for d := 0; d <= 2*mWindow; d += 64 {
+			r, ok := startRot(d)
+			if !ok {
+				return rep
+			}
+			if prevR < 0 {
+				rep.Extra["SR:0"] = r
+			} else if r != prevR {
+				last := prevR
+				for x := prevD + 1; x <= d; x++ {
+					rx, ok := startRot(x)
+					if !ok {
+						return rep
+					}
+					if rx != last {
+						rep.Extra[fmt.Sprintf("SR:%d", x)] = rx
+						last = rx
+					}
+				}
+			}
+			prevD, prevR = d, r
+		}
 		rep.Evals++
 	case "trace":
 		// Arg: d0, step, nEvents, T (measured)
@@ -362,6 +405,8 @@ func init() {
 		}
 		results := p.Map("c20", jobs, nil)
 		var meas c20Measure
+		startRot := map[int]int{} // change points of "rotations done by the end of start-up" as a function of the lag at start-up
+		var startRotDesc []string
 		evals := 0
 		for i, r := range results {
 			var rep jobReport
@@ -385,6 +430,19 @@ func init() {
 			}
 			if i == 2 {
 				meas = c20Measure{rep.Extra["H"], rep.Extra["Hneg"], rep.Extra["W"], rep.Extra["T"], rep.Extra["S"]}
+				for k, v := range rep.Extra {
+					if strings.HasPrefix(k, "SR:") {
+						x, _ := strconv.Atoi(k[3:])
+						startRot[x] = v
+						startRotDesc = append(startRotDesc, fmt.Sprintf("from %d: %d", x, v))
+					}
+				}
+				sort.Slice(startRotDesc, func(a, b int) bool {
+					var x, y int
+					fmt.Sscanf(startRotDesc[a], "from %d", &x)
+					fmt.Sscanf(startRotDesc[b], "from %d", &y)
+					return x < y
+				})
 			}
 		}
 		run.Coverage["measured_from_implementation"] = map[string]int{"acceptance_half_width_ahead": meas.H, "acceptance_half_width_behind": meas.Hneg, "window_slots": meas.W, "rotation_trigger": meas.T}
@@ -413,9 +471,24 @@ func init() {
 				}
 				return d
 			}
-			for d0 := 0; d0 < meas.W; d0++ {
-				push(st{tick(d0), 0}) // any state in which the loop performs its first (immediate) check
+			// initial states: what a start-up leaves behind (measured), for every lag at start-up up to two windows;
+			// the loop's timer has just been armed
+			startMax := 0
+			for d0 := 0; d0 <= 2*mWindow; d0++ {
+				rot := 0
+				best := -1
+				for x, r := range startRot {
+					if x <= d0 && x > best {
+						best, rot = x, r
+					}
+				}
+				res := d0 - rot*mWeek
+				if res > startMax {
+					startMax = res
+				}
+				push(st{res, 0})
 			}
+			run.Coverage["cadence_start_up"] = map[string]interface{}{"rotations_done_by_start_up_change_points": startRotDesc, "largest_now_minus_offset_after_start_up": startMax}
 			trans := 0
 			worst := 0
 			for len(frontier) > 0 {
